@@ -20,10 +20,19 @@ Definition s_materials_x : str := [109; 97; 116; 101; 114; 105; 97; 108; 115; 47
 Definition s_Mat_x : str := [77; 97; 116; 47; 120].                       (* "Mat/x" *)
 
 Definition fixed_virtual : backend := {|
+  b_store := [OSlash; ONorm; OSlash; OFold]; b_get := [OSlash; ONorm; OSlash; OFold];
+  b_exists := [OSlash; ONorm; OSlash; OFold]; b_open := [OSlash; ONorm; OSlash; OFold];
+  b_wsrc := WDict; b_wfolder := [OSlash; ONorm; OSlash; OFold; ODotEmpty; ORStrip; OAddSlash]; b_wsubj := SKey; b_wsubj_ops := [] |}.
+Definition fixed_zip : backend := {|
+  b_store := [OFold]; b_get := [OSlash; OSlash; ONorm; OSlash; OFold]; b_exists := [OSlash; ONorm; OSlash; OFold];
+  b_open := [OSlash; OSlash; ONorm; OSlash; OFold];
+  b_wsrc := WDict; b_wfolder := [OSlash; ONorm; OSlash; OFold; ODotEmpty; ORStrip; OAddSlash]; b_wsubj := SKey; b_wsubj_ops := [] |}.
+(** the repaired forms of round 1 (Virtual normalising on '/' only, Zip without normpath) stay sound for walks *)
+Definition round1_virtual : backend := {|
   b_store := [ONorm; OSlash; OFold]; b_get := [ONorm; OSlash; OFold]; b_exists := [ONorm; OSlash; OFold];
   b_open := [ONorm; OSlash; OFold];
   b_wsrc := WDict; b_wfolder := [ONorm; OSlash; OFold; ODotEmpty; ORStrip; OAddSlash]; b_wsubj := SKey; b_wsubj_ops := [] |}.
-Definition fixed_zip : backend := {|
+Definition round1_zip : backend := {|
   b_store := [OFold]; b_get := [OSlash; OFold]; b_exists := [OSlash; OFold]; b_open := [OSlash; OFold];
   b_wsrc := WDict; b_wfolder := [OSlash; OFold; ORStrip; OAddSlash]; b_wsubj := SKey; b_wsubj_ops := [] |}.
 
@@ -60,6 +69,21 @@ Lemma premises_satisfiable :
   /\ clean_fs [(s_materials_x, [1]); (s_Mat_x, [2])] = true
   /\ walk fixed_virtual [(s_materials_x, [1]); (s_Mat_x, [2])] s_mat = [(s_Mat_x, [2])]
   /\ walk fixed_zip [(s_materials_x, [1]); (s_Mat_x, [2])] [] = [(s_materials_x, [1]); (s_Mat_x, [2])].
+Proof. repeat split; reflexivity. Qed.
+
+Lemma round1_forms_ok :
+  walk_ok round1_virtual = true /\ backend_keys_ok round1_virtual = true
+  /\ walk_ok round1_zip = true /\ backend_keys_ok round1_zip = true
+  /\ backend_keys_norm round1_virtual = false /\ backend_keys_norm round1_zip = false
+  /\ backend_keys_norm fixed_virtual = true /\ backend_keys_norm fixed_zip = true.
+Proof. repeat split; reflexivity. Qed.
+
+Lemma lookup_unnormalised_refuted :
+  let fs := [([120], [1])] in
+  lookup pinned_virtual fs [46; 47; 120] = Some ([120], [1]) /\ lookup pinned_zip fs [46; 47; 120] = None
+  /\ lookup pinned_vpk fs [46; 47; 120] = None /\ lookup pinned_virtual fs [46; 92; 120] = None
+  /\ backend_keys_norm pinned_virtual = false /\ backend_keys_norm pinned_zip = false
+  /\ backend_keys_norm fixed_virtual = true /\ lookup fixed_virtual fs [46; 92; 120] = Some ([120], [1]).
 Proof. repeat split; reflexivity. Qed.
 
 Lemma chain_relpath_case_refuted :
